@@ -12,11 +12,19 @@ var realA = []string{"motion.MotionProcessor", "motion.motionDetector", "motion.
 var stubA = []string{"camera (simulated frame source, uptime clock, FFC, bad frames, resets)", "three recorder.Recorder sinks (fault-injecting, tracing)", "wall clock", "D-Bus test-recording request (sets StartSnapshot directly)"}
 
 func TestVerif(t *testing.T) {
+	theT = t
 	verifsim.Main(t, unitsA()...)
 }
 
 func unitsA() []verifsim.Unit {
 	return []verifsim.Unit{
+		{
+			Name: "A.sched", Props: []string{"C17", "C16"}, Run: runASched, MinimiseRuns: 80,
+			Rule:    "one case = the real MotionProcessor driven by a frame-loop task under the seeded scheduler (yields at every statement of the instrumented motionprocessor.go/frameloop.go and between the pixel rows of the parser), 1-3 client tasks calling RequestSnapshotRecording / GetRecentFrame at tape-chosen instants of the step clock, uniform-valued frames, bad frames; the test sink records the scheduler step of every call (its stop yields, so requests can arrive while the file is being closed); non-trivial = at least one request; distinct = interleaving signature",
+			Measure: "a.sched.interleaving = distinct context-switch sequences",
+			Real:    []string{"motion.MotionProcessor (Process, processSnapshot, RequestSnapshotRecording, GetRecentFrame)", "motion.FrameLoop"}, Stub: []string{"frame parser (uniform frames, yields between rows)", "recorder sinks (step-stamped)", "goroutine scheduling (seeded scheduler in a synctest bubble)"},
+			Assumptions: []string{"a request is counted as non-overlapping when no test recording is between its start and its 21st frame during the request and no earlier request is still pending"},
+		},
 		{
 			Name: "A.logtext", Props: []string{"C20"}, Run: runALogText,
 			Rule:    "one case = world-A history with the continuous recorder on and seeded failures of start/write/stop/disk-check/create on all three sinks; the injected error text looks like a format string (contains %20, 100%, %d); the daemon's log is captured and every line that carries the error text must carry it verbatim; non-trivial = at least two such lines",
